@@ -64,11 +64,78 @@ PROPS = {
                    "historical scans drop empty-valued keys (known finding F3b)",
         "assumptions": ["goleveldb snapshot isolation and memdb thread-safety", "sequential executions only"],
     },
+    "C02": {
+        "module": "ZenonVerif.Props.C02",
+        "streams": [S("sync", 12, 200, timeout=7200)],
+        "rule": "sync stream: one evaluation = one line: a momentum's redo patch replayed into the Lean manager model, or the "
+                "frontier digest of one follower under one delivery schedule (one-by-one / random batches up to 40 / account "
+                "blocks gossiped 0..3 momentums ahead / restarts on the same directory / batches up to 120 with overlaps); per "
+                "history one producing node (transfers, receives, token issue/mint/burn, fuse, stake, delegate, refunds, blocks "
+                "acknowledging momentums up to 40 below the frontier) and five followers; monitors: every momentum accepted by "
+                "every follower, byte-identical frontier key space on all followers and the producer, identical query answers",
+        "partial": "that the Go VM is a function of exactly the inputs the model names is established by the multi-node "
+                   "correspondence and the nondeterminism-site fact, not by a theorem; map-iteration order inside methods is only sampled",
+        "assumptions": ["SHA3 collision freedom (ChangesHash pins the patch)"],
+    },
+    "C17": {
+        "module": "ZenonVerif.Props.C17",
+        "streams": [S("spork", 10, 300, timeout=7200)],
+        "rule": "spork stream: one evaluation = one line of a scenario on a real node: outcome of a create/activate call "
+                "(right key, wrong key, repeated, unknown id), IsSporkActive of every spork on the store of every height, the "
+                "unimplemented-spork report on every height, availability of a (contract, method) for a block acknowledging a "
+                "momentum within ±2 of an enforcement height (live and against historical momentums); two thirds of the scenarios "
+                "activate in the order accelerator/bridge/htlc, the rest in random order, a quarter add an unknown spork; "
+                "distinct = distinct lines",
+        "partial": "gating is exact only when sporks are enforced in the order accelerator, bridge&liquidity, htlc (known "
+                   "finding F17); the case 'activating receive confirmed later than the enforcement height' is excluded by "
+                   "hypothesis of gate_by_height's use (state as of the recording momentum) and not reachable on the mock chain; "
+                   "'identically on every node' is C02/C07",
+    },
+    "C08": {
+        "module": "ZenonVerif.Props.C08",
+        "streams": [S("crash", 25, 1500, timeout=7200)],
+        "rule": "crash stream: one evaluation = one commit/rollback of a generated history on a real NewLevelDBManager whose "
+                "journal is parsed before/after (write count + batch content replayed against the Lean write plan), plus one "
+                "crash image per cut point (journal truncated after write k, reopened with goleveldb and NewLevelDBManager: raw "
+                "key space must equal the state before or after; frontier pointer / keys / undo-redo records must agree; the "
+                "same and a competing transaction are re-delivered and compared with crash-free runs); distinct = distinct lines",
+        "partial": "process death is reproduced at the granularity of leveldb writes (one journal record per Put/Delete/Write); "
+                   "durability below leveldb (fsync, power loss, torn journal records) is leveldb's own recovery and is trusted; "
+                   "the node-level commit (chain.AddMomentumTransaction) adds no further leveldb write to the ledger database",
+        "assumptions": ["goleveldb: one journal record per write call, handed to the OS before the call returns; a batch is atomic w.r.t. process death"],
+    },
     "C06": {
         "module": "ZenonVerif.Props.C06",
         "streams": [S("vdb", 400, 20000, arg="mix=pop")],
         "rule": VDB_RULE + "; pop-heavy mix: views are opened before a branch switch and re-read after it",
         "partial": "pool-after-switch and consensus statistics after a switch are covered by the two-node sync stream (C02), not by theorems yet",
+    },
+    "C05": {
+        "module": "ZenonVerif.Props.C05",
+        "streams": [S("election", 2000, 40000), S("ticker", 4000, 400000), S("mverify", 40, 300)],
+        "rule": "election stream: delegation sets of 1..60 pillars (names: numbered / case variants / prefixes of one "
+                "another / arbitrary bytes / realistic; weights: all equal / all zero / few values / ZNN amounts / >64 bit "
+                "/ one heavy / distinct) x heights (small, uniform uint64, 2^63 and 2^64 boundaries) x (NodeCount,RandCount) "
+                "(live 30/15 in 60% of the cases, small and random groups otherwise) through the real SelectProducers; "
+                "distinct = distinct (op,result) lines; every line is evaluated on the real code and on the model, and "
+                "the monitors re-run the real code on a permuted copy of the input. ticker stream: ToTick/ToTime at tick "
+                "boundaries +-1 s, before the start, beyond the 292-year int64 range, generateProducers/genProofTime for live and "
+                "random (BlockTime,NodeCount). mverify stream: n rounds on a real mock chain (slots and whole ticks skipped, "
+                "delegations and balances changing); per round the valid next momentum and ~50 variants (every single-field "
+                "mutation, the same re-hashed and re-signed by the elected pillar, re-timed, signed by a non-elected pillar or a "
+                "user, content dropped/duplicated/reordered) judged by the real Supervisor.ApplyMomentum and by the model, plus "
+                "GetMomentumBeforeTime at every timestamp +-1 s against the specification and the loop model, plus "
+                "GetMomentumProducer for all slots of two ticks on the caching instance and on a cold instance",
+        "partial": "rand.Perm and sort.Sort are parameters (any permutation / any sorted permutation); hashes, ed25519 and the "
+                   "momentum VM are oracle values; GetMomentumBeforeTime = specification is proved for whole-second instants "
+                   "(all callers) and only as partial correctness for sub-second instants (the real loop can spin there: "
+                   "before_time_subsecond_hangs); ToTick is modelled for whole-second instants only (Duration.Seconds() is a "
+                   "float; the last nanosecond of a tick rounds up for chains older than 194 days - counted by the ticker "
+                   "stream, not judged); the ticker theorems hold within 292 years of genesis (int64 ns Duration; negative "
+                   "witness ticker_wraps_after_292_years); ComputePillarDelegations (weights from balances) is taken from the real code; schedule equality after "
+                   "restart / reorganisation across nodes is left to the sync stream (C06/C16)",
+        "assumptions": ["math/rand.Perm returns a permutation of 0..n-1 (checked by the driver on every shipped oracle value)",
+                        "sort.Sort returns a sorted permutation of its input"],
     },
     "C12": {
         "module": "ZenonVerif.Props.C12",
@@ -86,5 +153,48 @@ PROPS = {
         "rule": "paging stream: (index,count,len) over the full uint32 range with boundary bias + complete page sweeps of "
                 "random lists; distinct = distinct (op,result) lines",
         "partial": "JSON-RPC server robustness and the ~80 embedded getters are runtime/correspondence only",
+    },
+    "C14": {
+        "module": "ZenonVerif.Props.C14",
+        "streams": [S("prio", 20000, 1000000), S("filter", 4000, 200000), S("pool", 400, 30000),
+                    S("pool-batch", 60, 3000, driver=False)],
+        "rule": "prio stream: all ordered pairs of boundary (TotalPlasma, BasePlasma) values incl. 0 and the caps, then random "
+                "pairs (equal ratios, same plasma, same hash, hashes one bit apart, zero plasma, full uint64 range so the "
+                "products wrap, in-range), each evaluated in both directions on chain.higherPriority and on the model, plus "
+                "folds of 2-7 competitors in two random arrival orders; filter stream: block-type strings up to 300 long "
+                "(uniform types, contract batches incl. runs of 90-120 ContractSends, user blocks with batches, mostly "
+                "sends) through accountPool.filterBlocksToCommit and the model; pool stream: sequences of 5-34 operations on a real "
+                "chain.NewAccountPool for one address (add on top, competitor for a pooled height with equal/better/random "
+                "plasma, duplicates, competitor of a confirmed block, non-linking blocks, forced adds, momentum confirming "
+                "a prefix of the pool / a competitor / nothing, momentum rollback), after every operation the frontier and "
+                "the uncommitted blocks are compared with the Lean state machine; pool-batch stream (monitors only): a contract "
+                "receive with 0-3 descendant blocks pooled across a momentum, and 2-6 addresses rebuilt by one momentum that "
+                "forks some of them; distinct = distinct (op,result) lines",
+        "partial": "data-race freedom / readers never observing a half-applied block are runtime properties of Go's memory "
+                   "model, not theorems; the pool state machine (model and stream) covers one address and one-block transactions; "
+                   "contract receives with descendant blocks are covered by the pool-batch monitors only; independence of the "
+                   "addresses in rebuild is the regenerated fact rebuild_no_early_return plus the pool-batch multi-address monitor",
+        "assumptions": ["accepted user blocks carry TotalPlasma <= MaxPlasmaForAccountBlock and 0 < BasePlasma <= "
+                        "AccountBlockBasePlasma + ABByteDataPlasma*MaxDataLength (vm.enoughPlasma); blocks of embedded "
+                        "addresses carry TotalPlasma = BasePlasma = 0"],
+    },
+    "C11": {
+        "module": "ZenonVerif.Props.C11",
+        "streams": [S("rewards-pure", 20000, 300000)],
+        "rule": "rewards-pure stream: the vm/constants reward lookups on every epoch 0..400, tick boundaries up to 2^64-1 and "
+                "random epochs; getWeightedStake / getWeightedLiquidityStake / getWeightedSentinel on entries starting or "
+                "revoked before, at the edges of, inside and after the epoch window (incl. the 90% sentinel threshold); "
+                "computePillarRewardForEpoch on random epoch statistics (1-100 pillars, missed slots, zero expected, zero "
+                "total weight, a twelfth each invalid: produced > expected, total weight below the sum); and the contract "
+                "functions computeStakeRewardsForEpoch / computeSentinelRewardsForEpoch / computeDetailedPillarReward / "
+                "computeLiquidityStakeRewardsForEpoch (token tuples, additional reward, a fifteenth with percentages above 100%) run on "
+                "an in-memory contract storage with generated entries, pillars, give-percentages and backers, reading back "
+                "the RewardDeposit of every address; distinct = distinct (op,result) lines",
+        "partial": "T4 epoch cursor / exactly-once per epoch, T5 collect-once and 'identical on all nodes' need the mock-node "
+                   "and two-node streams (not part of this check yet); premises produced<=expected, sum of weights <= total weight, sum expected <= MomentumsPerEpoch "
+                   "are consensus facts (C05) taken as hypotheses",
+        "assumptions": ["epoch statistics satisfy produced_i <= expected_i and sum of pillar weights <= TotalWeight",
+                        "epoch windows are unix seconds with |t| <= 2^62 (int64 subtraction does not wrap)",
+                        "pillar give-percentages are <= 100 (checkPillarPercentages)"],
     },
 }
